@@ -1,0 +1,95 @@
+//go:build verif
+
+// Contracts for the deductive verifier kept in /verif (govc). This file is comment-only:
+// with the build tag off it does not exist for the compiler, with it on it compiles to nothing.
+package carddav
+
+//@ -- ---------------------------------------------------------------------------------------
+//@ -- C07: RFC 6352 section 10.5 filter semantics, written from the RFC
+//@ spec knownMatchType(m MatchType) bool = m == "" || m == "equals" || m == "contains" || m == "starts-with" || m == "ends-with"
+//@ spec knownTest(t FilterTest) bool = t == "" || t == "anyof" || t == "allof"
+//@ spec tmRaw(mt MatchType, text string, v string) bool = (mt == "equals" && text == v)
+//@   | || ((mt == "contains" || mt == "") && contains(v, text))
+//@   | || (mt == "starts-with" && hasPrefix(v, text))
+//@   | || (mt == "ends-with" && hasSuffix(v, text))
+//@ spec tm(t TextMatch, v string) bool = tmRaw(t.MatchType, t.Text, v) != t.NegateCondition
+//@ spec tmsHold(p PropFilter, v string) bool = p.Test == "allof"
+//@   | ? (forall j :: 0 <= j && j < len(p.TextMatches) ==> tm(p.TextMatches[j], v))
+//@   | : (exists j :: 0 <= j && j < len(p.TextMatches) && tm(p.TextMatches[j], v))
+//@ spec opaque pfHolds(p PropFilter, card vcard.Card) bool = cardGet(card, p.Name) == nil
+//@   | ? p.IsNotDefined
+//@   | : (!p.IsNotDefined && (len(p.TextMatches) == 0 || tmsHold(p, cardGet(card, p.Name).Value)))
+//@ spec opaque pfWellFormed(p PropFilter) bool = knownTest(p.Test) && (forall j :: 0 <= j && j < len(p.TextMatches) ==> knownMatchType(p.TextMatches[j].MatchType))
+//@ spec opaque qHolds(q *AddressBookQuery, card vcard.Card) bool = q.FilterTest == "allof"
+//@   | ? (forall j :: 0 <= j && j < len(q.PropFilters) ==> pfHolds(q.PropFilters[j], card))
+//@   | : (exists j :: 0 <= j && j < len(q.PropFilters) && pfHolds(q.PropFilters[j], card))
+//@ spec opaque qWellFormed(q *AddressBookQuery) bool = knownTest(q.FilterTest) && (forall j :: 0 <= j && j < len(q.PropFilters) ==> pfWellFormed(q.PropFilters[j]))
+
+//@ func carddav.matchTextMatch(txt, field) (ok, err)
+//@   requires R1: field != nil
+//@   assigns nothing
+//@   ensures E1: err == nil <==> knownMatchType(txt.MatchType)
+//@   ensures E2: err == nil ==> (ok <==> tm(txt, field.Value))
+//@   ensures E3: err != nil ==> !ok
+
+//@ func carddav.matchPropFilter(prop, ao) (ok, err)
+//@   reveal pfHolds, pfWellFormed
+//@   requires R1: ao != nil
+//@   assigns nothing
+//@   ensures P1: pfWellFormed(prop) ==> err == nil
+//@   ensures P2: cardGet(ao.Card, prop.Name) != nil && !prop.IsNotDefined && len(prop.TextMatches) > 0 && !knownTest(prop.Test) ==> err != nil
+//@   ensures P3: err != nil ==> !ok && !pfWellFormed(prop)
+//@   ensures P5: err == nil ==> (ok <==> pfHolds(prop, ao.Card))
+//@   loop 1 invariant A1: forall j :: 0 <= j && j < #i ==> knownMatchType(prop.TextMatches[j].MatchType) && !tm(prop.TextMatches[j], field.Value)
+//@   loop 2 invariant B1: forall j :: 0 <= j && j < #i ==> knownMatchType(prop.TextMatches[j].MatchType) && tm(prop.TextMatches[j], field.Value)
+
+//@ func carddav.Match(query, ao) (matched, err)
+//@   reveal qHolds, qWellFormed
+//@   requires R1: ao != nil
+//@   assigns nothing
+//@   ensures M0: query == nil ==> matched && err == nil
+//@   ensures M1: query != nil && err == nil ==> (matched <==> qHolds(query, ao.Card))
+//@   ensures M2: query != nil && !knownTest(query.FilterTest) ==> err != nil
+//@   ensures M3: err != nil ==> !matched && query != nil && !qWellFormed(query)
+//@   ensures M4: query != nil && qWellFormed(query) ==> err == nil
+//@   loop 1 invariant A1: forall j :: 0 <= j && j < #i ==> !pfHolds(query.PropFilters[j], ao.Card)
+//@   loop 2 invariant B1: forall j :: 0 <= j && j < #i ==> pfHolds(query.PropFilters[j], ao.Card)
+
+//@ -- C07: projection (RFC 6352 section 10.4): VERSION plus the requested properties that the card has
+//@ spec inProps(req AddressDataRequest, key string) bool = exists j :: 0 <= j && j < len(req.Props) && req.Props[j] == key
+//@ spec wholeCard(req AddressDataRequest) bool = req.AllProp || len(req.Props) == 0
+//@ func carddav.filterProperties(req, ao) (result)
+//@   requires R1: wholeCard(req) || len(ao.Card) > 0
+//@   assigns nothing
+//@   ensures F1: wholeCard(req) ==> result == ao
+//@   ensures F2: !wholeCard(req) ==> result.Path == ao.Path && result.ModTime == ao.ModTime && result.ETag == ao.ETag
+//@   ensures F3: !wholeCard(req) ==> fresh(result.Card) && (forall key string :: has(result.Card, key) <==> (key == "VERSION" || (inProps(req, key) && has(ao.Card, key))))
+//@   ensures F4: !wholeCard(req) ==> (forall key string :: has(result.Card, key) ==> result.Card[key] == ao.Card[key])
+//@   loop 1 invariant I1: fresh(result.Card) && result.Card != nil && result.Path == ao.Path && result.ModTime == ao.ModTime && result.ETag == ao.ETag
+//@   loop 1 invariant I2: forall key string :: has(result.Card, key) <==> (key == "VERSION" || ((exists j :: 0 <= j && j < #i && req.Props[j] == key) && has(ao.Card, key)))
+//@   loop 1 invariant I3: forall key string :: has(result.Card, key) ==> result.Card[key] == ao.Card[key]
+
+//@ -- C07: Filter = the matching objects, in input order, cut to the first Limit matches, each projected.
+//@ -- cnt(q, aos, i): number of matching objects among the first i.
+//@ spec cnt(q *AddressBookQuery, aos []AddressObject, i int) int = i <= 0 ? 0 : cnt(q, aos, i - 1) + (qHolds(q, aos[i - 1].Card) ? 1 : 0)
+//@ spec lim(q *AddressBookQuery, aos []AddressObject) int = (q.Limit <= 0 || q.Limit > len(aos)) ? len(aos) : q.Limit
+//@ spec projected(req AddressDataRequest, r AddressObject, ao AddressObject) bool = wholeCard(req) ? r == ao
+//@   | : (r.Path == ao.Path && r.ModTime == ao.ModTime && r.ETag == ao.ETag
+//@   |    && (forall key string :: has(r.Card, key) <==> (key == "VERSION" || (inProps(req, key) && has(ao.Card, key))))
+//@   |    && (forall key string :: has(r.Card, key) ==> r.Card[key] == ao.Card[key]))
+//@ func carddav.Filter(query, aos) (result, err)
+//@   assigns nothing
+//@   requires R1: query != nil && !wholeCard(query.DataRequest) ==> (forall j :: 0 <= j && j < len(aos) ==> len(aos[j].Card) > 0)
+//@   ensures L0: query == nil ==> result == aos && err == nil
+//@   ensures L1: query != nil && err == nil ==> (exists K :: 0 <= K && K <= len(aos) && len(result) == old(cnt(query, aos, K))
+//@   |   && (K == len(aos) || len(result) == old(lim(query, aos))) && len(result) <= old(lim(query, aos))
+//@   |   && (forall j :: 0 <= j && j < K && old(qHolds(query, aos[j].Card)) ==> projected(old(query.DataRequest), result[old(cnt(query, aos, j))], old(aos[j]))))
+//@   witness L1: K : (#i1 < len(aos) ? #i1 : len(aos))
+//@   ensures L2: err != nil ==> result == nil && query != nil && !old(qWellFormed(query))
+//@   ensures L3: query != nil && old(qWellFormed(query)) ==> err == nil
+//@   loop 1 invariant J0: query != nil && fresh(out) && n == old(lim(query, aos)) && (len(aos) > 0 ==> len(out) < n)
+//@   loop 1 invariant J1: let k : #i in len(out) == old(cnt(query, aos, k))
+//@   loop 1 invariant J2: let k : #i in forall j :: 0 <= j && j < k && old(qHolds(query, aos[j].Card)) ==> projected(old(query.DataRequest), out[old(cnt(query, aos, j))], old(aos[j]))
+//@   loop 1 invariant J5a: let k : #i in forall j :: 0 <= j && j <= k ==> 0 <= old(cnt(query, aos, j)) && old(cnt(query, aos, j)) <= old(cnt(query, aos, k))
+//@   loop 1 invariant J5b: let k : #i in forall j :: 0 <= j && j < k && old(qHolds(query, aos[j].Card)) ==> old(cnt(query, aos, j)) < old(cnt(query, aos, k))
+//@   loop 1 invariant J6: let k : #i in k < len(aos) ==> old(cnt(query, aos, k + 1)) == old(cnt(query, aos, k)) + (old(qHolds(query, aos[k].Card)) ? 1 : 0)
